@@ -345,7 +345,8 @@ def _dispatch(ctx):
         stub_repo_calls(it, {"_unfold_one_detector": unfold_one})
         dets = []
         for i, pat in enumerate(patterns):
-            dets.append(Obj(None, {"name": f"d{i}", "straddles_symmetry_plane": Builtin("straddles", lambda it_, a, k, _p=pat: _p[a[0]])}, f"d{i}"))
+            # a detector may begin on the plane row without having been clipped: "touches" is the weaker predicate
+            dets.append(Obj(None, {"name": f"d{i}", "straddles_symmetry_plane": Builtin("straddles", lambda it_, a, k, _p=pat: _p[a[0]]), "touches_symmetry_plane": Builtin("touches", lambda it_, a, k: True)}, f"d{i}"))
         states = {d.attrs["name"]: {"raw": d.attrs["name"]} for d in dets}
         states["orphan"] = {"raw": "orphan"}
         arrays = open_obj(ix.cls("fdtdx.fdtd.container.ArrayContainer"), "arrays", detector_states=states)
@@ -370,7 +371,7 @@ def _dispatch(ctx):
                 bad.append((sym, pat, calls.get(nm), (touched, cnt)))
         if new.get("orphan") != {"raw": "orphan"}:
             bad.append((sym, "state without a detector must be kept as stored"))
-    ctx.ob("R32.7", "unfold_detector_states:dispatch", not bad and n == 26 * 8, "for each detector the unfolding receives touched[a] = symmetry[a] on the axes whose plane clipped it (0 elsewhere) and count = the number of those axes — not the number of symmetric axes of the simulation; detectors that cross no plane and states without a detector are returned as stored (26 symmetries x 8 crossing patterns)", bad[:3], "touched / count per detector")
+    ctx.ob("R32.7", "unfold_detector_states:dispatch", not bad and n == 26 * 8, "for each detector the unfolding receives touched[a] = symmetry[a] on the axes whose plane clipped it — straddled, not merely touched — (0 elsewhere) and count = the number of those axes — not the number of symmetric axes of the simulation; detectors that cross no plane and states without a detector are returned as stored (26 symmetries x 8 crossing patterns)", bad[:3], "touched / count per detector")
 
 
 def _job(ctx, payload):
